@@ -201,6 +201,13 @@ def _run_shard(args):
         if out and out[-1].startswith("TIMEOUT"):
             results += out
             rest = rest[k:]
+            # a change that makes MANY requests spin would otherwise cost the limit once per request: after five requests of
+            # one shard have run into the limit the rest of the shard is not run (each is answered `SKIP`; the five are
+            # failures already, and the replay names one of them)
+            # (requests that carry their own `limit=` - inputs recorded as non-terminating, finding F23 - do not count)
+            if sum(1 for o, l in zip(results, lines) if o.startswith("TIMEOUT") and not l.startswith("limit=")) >= 5:
+                results += ["SKIP not-run: five requests of this shard did not return within the limit"] * len(rest)
+                break
         else:
             results += out + [f"CRASH rc={rc}"]
             rest = rest[k + 1:]
